@@ -37,11 +37,12 @@ class Failure(Exception):
     history shape); `msg` is for humans.
     """
 
-    def __init__(self, sig: str, msg: str = "", detail=None):
+    def __init__(self, sig: str, msg: str = "", detail=None, min_case=None):
         super().__init__(f"{sig}: {msg}")
         self.sig = sig
         self.msg = msg
         self.detail = detail
+        self.min_case = min_case  # for block cases: the single failing point, in the same case format
 
 
 class HarnessError(Exception):
@@ -53,12 +54,19 @@ class Hang(BaseException):
 
 
 class Info:
-    __slots__ = ("nontrivial", "labels", "key")
+    """What one executed case was. For block cases (a slice of an exhaustive enumeration run in one
+    call) n_eval / n_nontrivial count the points inside the block; points of different blocks
+    are distinct by construction, so they are summed rather than hashed."""
 
-    def __init__(self, nontrivial=False, labels=(), key=None):
+    __slots__ = ("nontrivial", "labels", "key", "n_eval", "n_nontrivial", "label_counts")
+
+    def __init__(self, nontrivial=False, labels=(), key=None, n_eval=1, n_nontrivial=None, label_counts=None):
         self.nontrivial = nontrivial
         self.labels = labels
         self.key = key
+        self.n_eval = n_eval
+        self.n_nontrivial = n_nontrivial
+        self.label_counts = label_counts
 
 
 # --------------------------------------------------------------------------------------------
@@ -168,6 +176,7 @@ class Ctx:
         self.sub_evals = Counter()
         self.sub_nontrivial = Counter()
         self.nontrivial = set()
+        self.block_nontrivial = 0
         self.classes = Counter()
         self.known_hits = Counter()
         self.samples = []
@@ -222,6 +231,20 @@ class Ctx:
     def record(self, sub, case, info: Info):
         for lab in info.labels:
             self.classes[f"{sub}:{lab}"] += 1
+        if info.label_counts:
+            for lab, c in info.label_counts.items():
+                self.classes[f"{sub}:{lab}"] += c
+        if info.n_eval != 1:
+            self.evaluations += info.n_eval - 1
+            self.sub_evals[sub] += info.n_eval - 1
+        if info.n_nontrivial is not None:
+            # block of an exhaustive enumeration: points are distinct by construction
+            self.block_nontrivial += info.n_nontrivial
+            self.sub_nontrivial[sub] += info.n_nontrivial
+            if info.n_nontrivial and self.sub_sampled[sub] < 2:
+                self.sub_sampled[sub] += 1
+                self.samples.append({"subcheck": sub, "case": _shorten(case)})
+            return
         if info.nontrivial:
             h = case_hash(info.key if info.key is not None else [sub, case])
             if h not in self.nontrivial:
@@ -308,7 +331,7 @@ class Ctx:
         for v in self.violations:
             if v["sig"] == sig:
                 return len(self.violations)
-        path = write_replay(self.pid, sub, case, sig, f.msg)
+        path = write_replay(self.pid, sub, getattr(f, "min_case", None) or case, sig, f.msg)
         self.violations.append({"sub": sub, "sig": sig, "msg": f.msg[:2000], "replay": path})
         return len(self.violations)
 
@@ -319,6 +342,7 @@ class Ctx:
             "sub_evals": dict(self.sub_evals),
             "sub_nontrivial": dict(self.sub_nontrivial),
             "nontrivial": sorted(self.nontrivial),
+            "block_nontrivial": self.block_nontrivial,
             "classes": dict(self.classes),
             "known_hits": dict(self.known_hits),
             "samples": self.samples,
